@@ -208,9 +208,17 @@ def search(run, corr, deep):
         extra = [(k, m, l) for (k, m, l) in extra if not (k == "rx" and m.burst is not None and 0x80 in bytes(m.burst))]
         ea = vf.run_lines(T.HARNESS, ["trxd.%s.rt %d %s" % (k, l, m.line()) for k, m, l in extra])
         nacc = 0
+        # a round trip that did not come back: refused by the real encoder (not a message the toolkit accepts), or accepted
+        # and encoded but then not decodable - the second is a violation
+        notok = [(k, m, l) for (k, m, l), a in zip(extra, ea) if not a.startswith("ok")]
+        ga = vf.run_lines(T.HARNESS, ["trxd.%s.gen %d %s" % (k, l, m.line()) for k, m, l in notok])
+        encoded = {(k, l, m.line()) for (k, m, l), g in zip(notok, ga) if g.startswith("ok")}
         for (k, m, l), a in zip(extra, ea):
             if not a.startswith("ok"):
-                continue            # refused by the real encoder: not a message the toolkit accepts
+                if (k, l, m.line()) in encoded:
+                    nacc += 1
+                    fails.append((k, m, l, a, "a message the real validate()/gen_msg() accepts does not decode from its own encoding: %s" % a))
+                continue
             nacc += 1
             why = judge(k, m, l, a)
             if why:
